@@ -290,6 +290,10 @@ func (pc *ProviderCache) Refresh(ctx context.Context) error {
 
 		// Collect latest info on each provider.
 		for _, fetchedInfo := range fetchedInfos {
+			if fetchedInfo == nil {
+				// A source may deliver a null element; there is nothing to cache.
+				continue
+			}
 			pid := fetchedInfo.AddrInfo.ID
 			cinfo, ok := pc.write[pid]
 			if !ok {
